@@ -1085,9 +1085,21 @@ func c3Any(c *Ctx) {
 						return "ret-other(" + st.Desc(r.Results[0]) + ")"
 					}
 					fv := resolve(st, cl.Call.Value)
-					if ld, isLd := fv.(*ssa.UnOp); isLd {
-						if fa, isFA := ld.X.(*ssa.FieldAddr); isFA {
+					// the constructor the receiver carries: the receiver itself, or a field of it
+					switch y := fv.(type) {
+					case *ssa.Field:
+						fv = resolve(st, y.X)
+					case *ssa.UnOp:
+						if fa, isFA := y.X.(*ssa.FieldAddr); isFA {
 							fv = resolve(st, fa.X)
+							if a, isA := fv.(*ssa.Alloc); isA && a.Referrers() != nil {
+								// the receiver spilled into a local
+								for _, r := range *a.Referrers() {
+									if sto, isSt := r.(*ssa.Store); isSt && sto.Addr == ssa.Value(a) && sto.Val == ssa.Value(recv) {
+										fv = recv
+									}
+								}
+							}
 						}
 					}
 					a1 := resolve(st, cl.Call.Args[1])
